@@ -16,7 +16,7 @@ from .common import USER
 NAMES = ['Work', 'a b', 'q"t', 'b\\s', 'a&b', 'é', '日本語', 'Déjà vu/été',
          'x/y', 'inbox', 'INBOX', 'Inbox', '&', 'a&é', 'é&', 'é&x', '~t',
          'p(q)', 'st]r', '{7}', 'tab\there', 'nl\nhere', 'x' * 70]
-SPELLINGS = ['atom', 'quoted', 'lit', 'litplus']
+SPELLINGS = ['atom', 'quoted', 'lit', 'litplus', 'litplus0', 'lit0']
 NEEDLES = ['hello', 'message', 'a b', 'x"y', 'T1T', 'sender']
 
 
